@@ -1921,9 +1921,19 @@ insert_list:
         auto& counter = CURRENT->semaphore_count;
         counter = count;
         DEFER(counter = 0);
+        bool resumed = false;
         while (!try_subtract(count)) {
+            uint64_t left;
+            if (unlikely(resumed && (left = m_count.load()))) {
+                // We were resumed by signal(), but a wait() that did not have
+                // to queue took (part of) the tokens first. Going back to the
+                // tail of the queue, we must pass the wake-up on to waiters
+                // that the remaining tokens do cover, as nobody else will.
+                try_resume(left);
+            }
             int ret = waitq::wait_defer(timeout, spinlock_unlock, &splock);
             splock.lock();  // assuming errno NOT changed
+            resumed = true;
             if (unlikely(ret < 0)) {    // got interrupted
                 uint64_t cnt;
                 if (!m_ooo_resume && (cnt = m_count.load())) {
